@@ -48,7 +48,9 @@ inductive BlKey where
   deriving DecidableEq, Repr
 
 def blKey (s : String) : BlKey :=
-  BlKey.raw s  -- PRE-FIX (F11): raw strings are compared
+  match ethAddr s with
+  | some n => .addr n
+  | none => .raw s
 
 /-! ### State -/
 
